@@ -476,6 +476,94 @@ def run_mainline(C, job):
     C.samples.append({'mainline_sort': f'chunk {shape_idx}', 'scenarios': len(combos), 'paths': npaths})
 
 
+def run_power_graph(C, job):
+    """add_event_and_auth_chain_to_graph: starting from one event, the graph holds that event and every ancestor reachable through
+    auth events that belong to the auth difference, each with edges to exactly its auth events in the auth difference; every
+    auth-event DAG over 4 events and every auth difference (concrete scenarios: the function has no symbolic input)"""
+    chunk, nchunks = job
+    from authsym import install
+    import c08
+    E = C.fresh_engine(KEYS, N=8)
+    E.src.load(C.extra[('events', 'dumped')][2])
+    E.feas_mode = 'never'
+    E.loop_bound = 64
+    E.alloc_const = lambda v: c08.alloc_const(E, v)
+    class _W: pass
+    install(C, E, _W())
+    evid = lambda b: Adt('ruma_common::identifiers::event_id::OwnedEventId', None, [E.const_str(b)])
+    names = [b'$e0', b'$e1', b'$e2', b'$e3']
+    store = {}
+
+    def fetch_event(E_, st, args):
+        s_ = E_.as_str(st, args[0]).conc()
+        return [(TRUE, some(store[s_]) if s_ in store else NONE)]
+
+    def fn_call(E_, st, callee, a, m):
+        tgt = E_.deref(st, a[0])
+        if isinstance(tgt, Obj) and tgt.kind == 'PyFn':
+            args = a[1].fields if isinstance(a[1], Tup) else [a[1]]
+            return tgt.data(E_, st, list(args))
+        return None
+    E.overrides.insert(0, (re.compile(r'^<.+ as (?:std|core)::ops::(?:Fn|FnMut|FnOnce)>::call(?:_mut|_once)?$'), fn_call))
+    E.overrides.insert(0, (re.compile(r'^<<E as events::traits::Event>::Id as std::borrow::Borrow>::borrow$'), lambda E_, st, c, a, m: [(TRUE, E_.as_str(st, a[0]))]))
+    E.overrides.insert(0, (re.compile(r'^<<E as events::traits::Event>::Id as std::(?:clone::Clone>::clone|borrow::ToOwned>::to_owned)$'), lambda E_, st, c, a, m: [(TRUE, E_.deref(st, a[0]))]))
+    f = E.find_func('add_event_and_auth_chain_to_graph')
+    TET = 'ruma_events::enums::TimelineEventType'
+    scen = [(es, diff) for es in dags(4) for r in range(5) for diff in itertools.combinations(range(4), r)]
+    scen = scen[chunk::nchunks]
+    for es, diff in scen:
+        auth = {i: [j for (a_, j) in es if a_ == i] for i in range(4)}
+        for i in range(4):
+            store[names[i]] = Obj('Event', {'event_id': evid(names[i]), 'room_id': E.const_str(b'!r:x'), 'sender': E.const_str(b'@a:x'), 'event_type': Adt(TET, 'RoomTopic', []),
+                                            'content': Opaque('content'), 'origin_server_ts': Opaque('ts'), 'state_key_outcomes': (lambda: [(TRUE, some(E.const_str(b'')))]),
+                                            'prev_events_outcomes': (lambda: [(TRUE, Obj('SeqIter', ((), 0)))]),
+                                            'auth_events_outcomes': (lambda a_=auth[i]: [(TRUE, Obj('SeqIter', (tuple(E.alloc_const(evid(names[j])) for j in a_), 0)))]), 'redacts': NONE})
+        st = E.new_state()
+        gref = E.root_ref(st, E.mk_map('HashMap', []))
+        dref = E.root_ref(st, Obj('HSet', tuple(evid(names[j]) for j in diff)))
+        outs = E.run_func(f, [gref, evid(names[3]), dref, Obj('PyFn', fetch_event)], [], st=st)
+        C.absorb(E)
+        # specification
+        want, todo = {}, [3]
+        while todo:
+            x = todo.pop()
+            if x in want: continue
+            want[x] = sorted(j for j in auth[x] if j in diff)
+            todo += want[x]
+        label = f'power graph: auth events {dict((names[i].decode(), [names[j].decode() for j in auth[i]]) for i in range(4))}, auth difference {[names[j].decode() for j in diff]}'
+        bad = None
+        if len(outs) != 1 or outs[0].kind != 'ret':
+            bad = f'{len(outs)} outcomes / panic'
+        else:
+            g = E.deref(outs[0].st, gref)
+            got = {}
+            for k, v in g.data[1]:
+                kk = names.index(E.as_str(outs[0].st, k).conc())
+                got[kk] = sorted(names.index(E.as_str(outs[0].st, x).conc()) for x in E.deref(outs[0].st, v).data)
+            if got != want:
+                bad = f'graph {got}, expected {want}'
+        C.queries.append({'name': label, 'result': 'sat' if bad else 'unsat', 's': 0})
+        if bad:
+            vec = {'op': 'c07:power_graph', 'start': '$e3:x', 'events': [{'id': names[i].decode() + ':x', 'auth': [names[j].decode() + ':x' for j in auth[i]]} for i in range(4)],
+                   'auth_diff': [names[j].decode() + ':x' for j in diff]}
+            res = C.native(vec); vec['native'] = res
+            exp = {names[k].decode() + ':x': [names[j].decode() + ':x' for j in v] for k, v in want.items()}
+            if res.get('r') == 'ok' and res.get('graph') != exp:
+                C.report_violation(f'{label}: {bad}; native graph {res.get("graph")}', vec)
+                C.samples.append({'counterexample': vec})
+                return
+            raise Broken(f'{label}: {bad} - does not reproduce natively: {res} vs {exp}')
+    C.bounds[f'power_graph:{chunk}'] = {'scenarios': len(scen)}
+    if chunk == 0:
+        vec = {'op': 'c07:power_graph', 'start': '$e3:x', 'events': [{'id': '$e0:x', 'auth': []}, {'id': '$e1:x', 'auth': ['$e0:x']}, {'id': '$e2:x', 'auth': ['$e0:x']}, {'id': '$e3:x', 'auth': ['$e1:x', '$e2:x']}],
+               'auth_diff': ['$e0:x', '$e1:x']}
+        res = C.native(vec)
+        C.model_validation += 1
+        if res.get('r') != 'ok' or res.get('graph') != {'$e3:x': ['$e1:x'], '$e1:x': ['$e0:x'], '$e0:x': []}:
+            raise Broken(f'power-graph validation instance fails natively: {res}')
+    C.samples.append({'power_graph': f'chunk {chunk}', 'scenarios': len(scen)})
+
+
 def expected_order(nodes):
     done, out = set(), []
     byid = {x['id']: x for x in nodes}
@@ -507,6 +595,8 @@ def body(C):
             jobs.append((run_sort, (n, shapes[i:i + per])))
     C.extra[('events', 'dumped')] = C.dump('events', want_mir=False)
     jobs += [(run_mainline, i) for i in range(12)]
+    jobs += [(run_power_graph, (i, 8)) for i in range(8)]
+    C.assumptions.append('power-event graph (add_event_and_auth_chain_to_graph): every auth-event DAG over 4 events x every auth difference (1024 concrete scenarios), started from the newest event')
     C.assumptions.append('mainline ordering (mainline_sort): power-level history p0 <- p1 <- p2 (resolved) with a side branch q <- p0; three events each citing one of them or no power event (125 combinations), symbolic timestamps, every hash iteration order; slice::sort_by_key is a library model (stable sort by the std order of the key tuple) applied to the keys the crate computes')
     if PID == 'C06' or os.environ.get('VERIF_PID') == 'C06':
         jobs += [(run_auth_diff, 1), (run_auth_diff, 2), (run_auth_diff, 3)]
